@@ -3,6 +3,7 @@
 package c14
 
 import (
+	"bufio"
 	"bytes"
 	"context"
 	"errors"
@@ -157,6 +158,7 @@ type setting struct {
 	N           int    `json:"concurrent_requests"`
 	Delay       bool   `json:"select_window_delay"`
 	Health      bool   `json:"active_health_check,omitempty"`
+	Websocket   bool   `json:"websocket,omitempty"`
 }
 
 type upstreamUnderTest struct {
@@ -177,6 +179,9 @@ func mk(st setting, bks []*backend) (*upstreamUnderTest, error) {
 		// the backends always answer the probe: a passing health check must not
 		// wipe failures that have not expired yet
 		hc = " health_check /verif-health\n health_check_interval 25ms\n health_check_timeout 2s\n"
+	}
+	if st.Websocket {
+		hc += " websocket\n"
 	}
 	fmt.Fprintf(&b, "proxy / %s {\n policy %s\n max_conns %d\n max_fails %d\n fail_timeout %s\n try_duration %s\n try_interval 5ms\n keepalive 0\n%s}\n",
 		strings.Join(hs, " "), st.Policy, st.MaxConns, st.MaxFails, st.FailTimeout, st.TryDuration, hc)
@@ -281,6 +286,7 @@ func run(c *lib.Ctx) {
 	retryAccounting(c, bks)
 	cancelNotFailure(c, bks)
 	busyHealthyNotDown(c, bks)
+	upgradedSessions(c)
 	clientWriteNotFailure(c, bks)
 	socketBurst(c, bks)
 	c.Count("hook_points_hit", atomic.LoadInt64(&hookHits))
@@ -781,6 +787,151 @@ func busyHealthyNotDown(c *lib.Ctx, bks []*backend) {
 		<-rb
 		waitUntil(func() bool { return conns(u.hosts[1]) == 0 }, 5*time.Second)
 		u.up.Stop()
+	}
+}
+
+// upgradeBackend answers "Upgrade: websocket" requests with 101 and then echoes
+// until its peer closes; held is the number of upgraded connections it is
+// serving right now.
+type upgradeBackend struct {
+	ln            net.Listener
+	held, maxHeld int64
+	sessions      int64
+}
+
+func newUpgradeBackend() *upgradeBackend {
+	ln, err := net.Listen("tcp", "127.0.0.1:0")
+	if err != nil {
+		panic(err)
+	}
+	u := &upgradeBackend{ln: ln}
+	go func() {
+		for {
+			cn, err := ln.Accept()
+			if err != nil {
+				return
+			}
+			go func() {
+				defer cn.Close()
+				br := bufio.NewReader(cn)
+				req, err := http.ReadRequest(br)
+				if err != nil {
+					return
+				}
+				if !strings.EqualFold(req.Header.Get("Upgrade"), "websocket") {
+					io.WriteString(cn, "HTTP/1.1 400 Bad Request\r\nContent-Length: 0\r\nConnection: close\r\n\r\n")
+					return
+				}
+				cur := atomic.AddInt64(&u.held, 1)
+				atomic.AddInt64(&u.sessions, 1)
+				for {
+					m := atomic.LoadInt64(&u.maxHeld)
+					if cur <= m || atomic.CompareAndSwapInt64(&u.maxHeld, m, cur) {
+						break
+					}
+				}
+				defer atomic.AddInt64(&u.held, -1)
+				io.WriteString(cn, "HTTP/1.1 101 Switching Protocols\r\nUpgrade: websocket\r\nConnection: Upgrade\r\n\r\n")
+				buf := make([]byte, 4096)
+				for {
+					n, err := br.Read(buf)
+					if n > 0 {
+						cn.Write(buf[:n])
+					}
+					if err != nil {
+						return
+					}
+				}
+			}()
+		}
+	}()
+	return u
+}
+
+// upgradedSessions: upgraded (websocket-style) connections count like any other
+// forward: while a session lasts the backend is held and the in-flight count is
+// 1, when the client ends the session the forward is over - the backend is let
+// go and the count is 0 - and max_conns 1 means the backend never serves two
+// sessions at once.
+func upgradedSessions(c *lib.Ctx) {
+	ub := newUpgradeBackend()
+	defer ub.ln.Close()
+	fake := &backend{ln: ub.ln}
+	st := setting{Hosts: 1, Policy: "first", MaxConns: 1, MaxFails: 1, FailTimeout: "1s", TryDuration: "0", N: 1, Websocket: true}
+	u, err := mk(st, []*backend{fake})
+	if err != nil {
+		c.Violation("harness/upstream", err.Error(), st)
+		return
+	}
+	defer u.up.Stop()
+	front := httptest.NewServer(http.HandlerFunc(func(w http.ResponseWriter, r *http.Request) {
+		if code, _ := u.p.ServeHTTP(w, r); code >= 400 {
+			w.WriteHeader(code)
+		}
+	}))
+	defer func() {
+		// (a handler still busy with a session would make Close wait for ever)
+		ub.ln.Close()
+		front.CloseClientConnections()
+		done := make(chan struct{})
+		go func() { front.Close(); close(done) }()
+		select {
+		case <-done:
+		case <-time.After(10 * time.Second):
+		}
+	}()
+	addr := front.Listener.Addr().String()
+	sessions := c.Pick(6, 40)
+	for i := 0; i < sessions; i++ {
+		c.Journal("C14 upgraded session %d", i)
+		k, err := net.DialTimeout("tcp", addr, 5*time.Second)
+		if err != nil {
+			c.Inconclusive("upgraded sessions: dial: " + err.Error())
+			return
+		}
+		k.SetDeadline(time.Now().Add(20 * time.Second))
+		fmt.Fprintf(k, "GET /ws HTTP/1.1\r\nHost: %s\r\nConnection: Upgrade\r\nUpgrade: websocket\r\nSec-WebSocket-Version: 13\r\nSec-WebSocket-Key: dmVyaWYtYzE0LXNlc3Npb24=\r\n\r\n", addr)
+		br := bufio.NewReader(k)
+		resp, err := http.ReadResponse(br, nil)
+		c.Eval(1)
+		if err != nil || resp.StatusCode != 101 {
+			code := 0
+			if resp != nil {
+				code = resp.StatusCode
+			}
+			// the previous session is over (its client closed and the in-flight count was seen at 0)
+			c.Violation("C14/upgraded-session-refused", fmt.Sprintf("session %d: the previous sessions are over and max_conns is 1, yet the upgrade was answered %d (%v); backend holds %d connections, in-flight count %d", i, code, err, atomic.LoadInt64(&ub.held), conns(u.hosts[0])),
+				map[string]interface{}{"setting": st, "sessions_so_far": i})
+			k.Close()
+			return
+		}
+		msg := fmt.Sprintf("ping-%d", i)
+		io.WriteString(k, msg)
+		echo := make([]byte, len(msg))
+		if _, err := io.ReadFull(br, echo); err != nil || string(echo) != msg {
+			c.Inconclusive(fmt.Sprintf("upgraded sessions: no echo in session %d: %v", i, err))
+			k.Close()
+			return
+		}
+		if n, h := conns(u.hosts[0]), atomic.LoadInt64(&ub.held); n != 1 || h != 1 {
+			c.Violation("C14/conns-mismatch/upgraded", fmt.Sprintf("during upgraded session %d the in-flight count is %d and the backend serves %d upgraded connections (want 1 and 1)", i, n, h), map[string]interface{}{"setting": st})
+		}
+		k.Close() // the client ends the session
+		if !waitUntil(func() bool { return conns(u.hosts[0]) == 0 }, 20*time.Second) {
+			c.Violation("C14/conns-not-zero-after-traffic/upgraded", fmt.Sprintf("20 s after the client ended upgraded session %d the in-flight count is still %d", i, conns(u.hosts[0])), map[string]interface{}{"setting": st})
+			return
+		}
+		// the count says the forward is over: then the backend has been let go
+		if !waitUntil(func() bool { return atomic.LoadInt64(&ub.held) == 0 }, 3*time.Second) {
+			c.Violation("C14/conns-mismatch/upgraded", fmt.Sprintf("after the client ended upgraded session %d the in-flight count is 0 but the backend is still serving %d upgraded connection(s) of the proxy", i, atomic.LoadInt64(&ub.held)),
+				map[string]interface{}{"setting": st, "sessions_so_far": i + 1})
+			return
+		}
+		c.Count("upgraded_sessions_checked", 1)
+		c.Nontrivial(fmt.Sprintf("upgraded-session/%d", i))
+	}
+	if m := atomic.LoadInt64(&ub.maxHeld); m > 1 {
+		c.Violation("C14/max_conns-overshoot", fmt.Sprintf("upgraded sessions: the backend served %d sessions at once, max_conns is 1", m), map[string]interface{}{"setting": st})
 	}
 }
 
